@@ -14,25 +14,48 @@ theorem answer_partial (c : Ctx) (p buf : Bytes)
     (ha : Spec.answerable c.vendorIds.length p = true) :
     ∃ c' d n buf', process c p buf = (c', .ok (d, some n), buf') ∧
       Spec.respondsTo c.address p (buf'.take n) n = true := by
-  sorry
+  obtain ⟨c', cc, rest, _, _, _, hle, hp⟩ := Proc.process_answerable c p buf hc hb ha
+  refine ⟨_, _, _, _, hp, ?_⟩
+  have e : 13 + rest.length = 12 + (cc :: rest).length := by simp; omega
+  have ht : (Proc.respPkt c.address (byteAt p 6) (byteAt p 10) (cc :: rest) ++ buf.drop (13 + rest.length)).take
+      (13 + rest.length) = Proc.respPkt c.address (byteAt p 6) (byteAt p 10) (cc :: rest) := by
+    rw [e]; exact Proc.respPkt_take _ _ _ _ _
+  rw [ht]
+  exact Proc.respondsTo_respPkt c.address p cc rest hle.2
 
 /-- finding D12: the response's instance ID is 0 whatever the request's -/
 theorem instance_zero (c : Ctx) (p buf buf' : Bytes) (c' : Ctx) (d : Dec) (n : Nat)
     (h : process c p buf = (c', .ok (d, some n), buf')) :
     byteAt (buf'.take n) 9 &&& 0x1F#8 = 0x00#8 := by
-  sorry
+  obtain ⟨cc, rest, hcc, rfl, ht⟩ := Proc.process_ok_some_take c p buf buf' c' d n h
+  rw [ht]
+  simp [Proc.respPkt, Proc.respPre, byteAt]
 
 /-- hence the echo holds exactly for requests with instance ID 0 -/
 theorem instance_echo_iff (c : Ctx) (p buf buf' : Bytes) (c' : Ctx) (d : Dec) (n : Nat)
     (h : process c p buf = (c', .ok (d, some n), buf')) :
     Spec.instanceEchoed p (buf'.take n) = (byteAt p 9 &&& 0x1F#8 == 0x00#8) := by
-  sorry
+  obtain ⟨cc, rest, hcc, rfl, ht⟩ := Proc.process_ok_some_take c p buf buf' c' d n h
+  rw [ht]
+  unfold Spec.instanceEchoed
+  have : byteAt (Proc.respPkt c.address (byteAt p 6) (byteAt p 10) (cc :: rest)) 9 = 0x00#8 := by
+    simp [Proc.respPkt, Proc.respPre, byteAt]
+  rw [this]
+  generalize byteAt p 9 &&& 0x1F#8 = x
+  rw [Bool.eq_iff_iff]
+  simp only [BitVec.zero_and, beq_iff_eq]
+  exact eq_comm
 
 /-- a completion code follows the command code -/
 theorem has_completion_code (c : Ctx) (p buf buf' : Bytes) (c' : Ctx) (d : Dec) (n : Nat)
     (h : process c p buf = (c', .ok (d, some n), buf')) :
     13 ≤ n ∧ (byteAt (buf'.take n) 11 = 0x00#8 ∨ byteAt (buf'.take n) 11 = 0x02#8) := by
-  sorry
+  obtain ⟨cc, rest, hcc, rfl, ht⟩ := Proc.process_ok_some_take c p buf buf' c' d n h
+  rw [ht]
+  refine ⟨by omega, ?_⟩
+  have : byteAt (Proc.respPkt c.address (byteAt p 6) (byteAt p 10) (cc :: rest)) 11 = cc := by
+    simp [Proc.respPkt, Proc.respPre, byteAt]
+  rw [this]; exact hcc
 
 end C12
 end Mctp
